@@ -1681,3 +1681,167 @@ Example ex_per_level_ids :
 Proof.
   split; [apply per_level_ids_distinct; repeat constructor; cbn; intuition discriminate|vm_compute; reflexivity].
 Qed.
+
+(* ------------------------------------------------------------------ the hand-over to the worker processes *)
+
+Section PoolProofs.
+  Variable T : Type.
+  Notation pool := (pool T).
+  Notation wstat := (wstat T).
+
+  (* TileWorkerPool.process hands the list over exactly once (appended to the queue) or not at all *)
+  Lemma pool_process_spec env (q : list (option T)) tiles :
+    (fst (pool_process env q tiles) = Handed /\ snd (pool_process env q tiles) = q ++ [Some tiles]) \/
+    (fst (pool_process env q tiles) <> Handed /\ snd (pool_process env q tiles) = q).
+  Proof.
+    induction env as [|o env IH]; cbn [pool_process fst snd].
+    - right. split; [discriminate|reflexivity].
+    - destruct o as [|[|]]; cbn [fst snd].
+      + left. auto.
+      + exact IH.
+      + right. split; [discriminate|reflexivity].
+  Qed.
+
+  (* as long as some worker is alive a full queue never makes process give up or drop the list: it is handed over as
+     soon as the queue accepts it *)
+  Lemma pool_process_alive env1 env2 (q : list (option T)) tiles :
+    Forall (fun o => o = PutFull true) env1 ->
+    pool_process (env1 ++ PutOk :: env2) q tiles = (Handed, q ++ [Some tiles]).
+  Proof.
+    induction env1 as [|o env1 IH]; intros H; [reflexivity|]. inversion H as [|? ? Ho Hr]; subst. cbn. apply IH. exact Hr.
+  Qed.
+
+  Definition bw (w : wstat) : list T := match w with WBusy t => [t] | _ => [] end.
+  Definition busy (l : list wstat) : list T := flat_map bw l.
+  Fixpoint qtiles (q : list (option T)) : list T :=
+    match q with [] => [] | Some t :: r => t :: qtiles r | None :: r => qtiles r end.
+
+  Lemma nth_split {A} (l : list A) i a : nth_error l i = Some a -> l = firstn i l ++ a :: skipn (S i) l.
+  Proof.
+    revert i. induction l as [|x l IH]; intros [|i] H; cbn in *; try discriminate.
+    - injection H as ->. reflexivity.
+    - f_equal. apply IH. exact H.
+  Qed.
+
+  Lemma busy_split l i w0 : nth_error l i = Some w0 -> forall t,
+      In t (busy l) <-> In t (bw w0) \/ In t (busy (firstn i l ++ skipn (S i) l)).
+  Proof.
+    intros H t. rewrite (nth_split l i w0 H) at 1. unfold busy. rewrite !flat_map_app. cbn [flat_map].
+    rewrite !in_app_iff. tauto.
+  Qed.
+
+  Lemma busy_set l i w0 : nth_error l i = Some w0 -> forall w t,
+      In t (busy (set_nth l i w)) <-> In t (bw w) \/ In t (busy (firstn i l ++ skipn (S i) l)).
+  Proof.
+    intros H w t. unfold set_nth, busy. rewrite !flat_map_app. cbn [flat_map]. rewrite !in_app_iff. tauto.
+  Qed.
+
+  Lemma in_split_nth l i (w0 : wstat) : nth_error l i = Some w0 -> forall x,
+      In x l <-> x = w0 \/ In x (firstn i l ++ skipn (S i) l).
+  Proof.
+    intros H x. rewrite (nth_split l i w0 H) at 1. rewrite !in_app_iff. cbn [In]. intuition.
+  Qed.
+
+  Lemma in_set_nth (l : list wstat) i w x : In x (set_nth l i w) <-> x = w \/ In x (firstn i l ++ skipn (S i) l).
+  Proof. unfold set_nth. rewrite !in_app_iff. cbn [In]. intuition. Qed.
+
+  (* the queue after stop(): tile lists first, then only sentinels; a worker can only have exited when no list is left *)
+  Definition inv (p : pool) : Prop :=
+    exists ts k, pq p = map Some ts ++ repeat None k /\ (In WExited (pw p) -> ts = []).
+
+  Lemma step_inv p i : inv p -> inv (worker_step p i).
+  Proof.
+    intros (ts & k & Hq & Hx). unfold worker_step.
+    destruct (nth_error (pw p) i) as [[|t|]|] eqn:En; try (exists ts, k; auto; fail).
+    - destruct ts as [|t ts]; [destruct k as [|k]|]; rewrite Hq; cbn [map app repeat].
+      + exists [], 0%nat. split; [rewrite Hq; reflexivity|auto].
+      + exists [], k. cbn [pq pw map app]. auto.
+      + exists ts, k. cbn [pq pw]. split; [reflexivity|]. intros Hin. apply in_set_nth in Hin.
+        destruct Hin as [Hin|Hin]; [discriminate|].
+        assert (In WExited (pw p)) by (apply (in_split_nth _ _ _ En); right; exact Hin).
+        specialize (Hx H). discriminate.
+    - exists ts, k. cbn [pq pw]. split; [exact Hq|]. intros Hin. apply in_set_nth in Hin.
+      destruct Hin as [Hin|Hin]; [discriminate|]. apply Hx. apply (in_split_nth _ _ _ En). right. exact Hin.
+  Qed.
+
+  Lemma qtiles_shape ts k : qtiles (map Some ts ++ repeat None k) = ts.
+  Proof.
+    induction ts as [|t ts IH]; cbn [map app qtiles]; [|rewrite IH; reflexivity].
+    induction k; cbn [repeat qtiles]; auto.
+  Qed.
+
+  (* nothing is lost by a step: every list that is done, being worked on or queued stays so *)
+  Lemma step_keeps p i t :
+    In t (pdone p ++ busy (pw p) ++ qtiles (pq p)) ->
+    In t (pdone (worker_step p i) ++ busy (pw (worker_step p i)) ++ qtiles (pq (worker_step p i))).
+  Proof.
+    unfold worker_step. destruct (nth_error (pw p) i) as [[|t0|]|] eqn:En; auto.
+    - destruct (pq p) as [|[t1|] q'] eqn:Eq.
+      + rewrite Eq. auto.
+      + cbn [pdone pw pq qtiles]. rewrite !in_app_iff, (busy_split _ _ _ En), (busy_set _ _ _ En). cbn [bw In]. tauto.
+      + cbn [pdone pw pq qtiles]. rewrite !in_app_iff, (busy_split _ _ _ En), (busy_set _ _ _ En). cbn [bw In]. tauto.
+    - cbn [pdone pw pq]. rewrite !in_app_iff. rewrite (busy_split _ _ _ En), (busy_set _ _ _ En). cbn [bw In]. tauto.
+  Qed.
+
+  Lemma run_inv sched : forall p, inv p -> inv (run_workers p sched).
+  Proof. induction sched as [|i s IH]; intros p H; [exact H|]. apply IH, step_inv, H. Qed.
+
+  Lemma run_keeps sched : forall p t,
+      In t (pdone p ++ busy (pw p) ++ qtiles (pq p)) ->
+      In t (pdone (run_workers p sched) ++ busy (pw (run_workers p sched)) ++ qtiles (pq (run_workers p sched))).
+  Proof. induction sched as [|i s IH]; intros p t H; [exact H|]. apply IH, step_keeps, H. Qed.
+
+  Lemma set_nth_length {A} (l : list A) i a0 a : nth_error l i = Some a0 -> length (set_nth l i a) = length l.
+  Proof.
+    intros H. assert (i < length l)%nat by (apply nth_error_Some; congruence).
+    unfold set_nth. rewrite app_length. cbn [length]. rewrite firstn_length, skipn_length. lia.
+  Qed.
+
+  Lemma step_len (p : pool) i : length (pw (worker_step p i)) = length (pw p).
+  Proof.
+    unfold worker_step. destruct (nth_error (pw p) i) as [[|t0|]|] eqn:En; auto.
+    - destruct (pq p) as [|[t1|] q']; auto; cbn [pw]; eapply set_nth_length; eauto.
+    - cbn [pw]. eapply set_nth_length; eauto.
+  Qed.
+
+  Lemma run_len sched : forall p : pool, length (pw (run_workers p sched)) = length (pw p).
+  Proof. induction sched as [|i s IH]; intros p; [reflexivity|]. cbn [run_workers fold_left]. fold (run_workers (worker_step p i) s). rewrite IH. apply step_len. Qed.
+
+  Lemma busy_all_exited l : Forall (fun w => w = WExited) l -> busy l = [].
+  Proof. induction 1 as [|w l -> _ IH]; [reflexivity|]. exact IH. Qed.
+
+  (* stop() (one sentinel per live worker, then join): whatever the interleaving of the workers, once they have all
+     exited every list that had been handed over - queued, being worked on or finished - is finished *)
+  Lemma pool_stop_drains_lemma ts (ws : list wstat) done sched :
+    Forall (fun w => alive w = true) ws -> ws <> [] ->
+    let p1 := run_workers (pool_stop (mkPool (map Some ts) ws done)) sched in
+    Forall (fun w => w = WExited) (pw p1) ->
+    incl (done ++ busy ws ++ ts) (pdone p1).
+  Proof.
+    intros Hal Hne p1 Hex t Ht.
+    set (p0 := pool_stop (mkPool (map Some ts) ws done)) in *.
+    assert (Hi : inv p0).
+    { exists ts, (length (filter (alive) ws)). split; [reflexivity|]. intros Hin. cbn [pw p0 pool_stop] in Hin.
+      rewrite Forall_forall in Hal. specialize (Hal _ Hin). discriminate. }
+    assert (Hk : In t (pdone p0 ++ busy (pw p0) ++ qtiles (pq p0))).
+    { cbn [p0 pool_stop pdone pw pq]. rewrite qtiles_shape. exact Ht. }
+    pose proof (run_inv sched p0 Hi) as (ts' & k & Hq & Hx). pose proof (run_keeps sched p0 t Hk) as Hk'.
+    fold p1 in Hq, Hx, Hk'. rewrite (busy_all_exited _ Hex) in Hk'. rewrite Hq, qtiles_shape in Hk'.
+    assert (Hlen : length (pw p1) = length ws) by (subst p1; rewrite run_len; reflexivity).
+    assert (Hin : In WExited (pw p1)).
+    { destruct (pw p1) as [|w l] eqn:E; [destruct ws; [congruence|discriminate]|].
+      inversion Hex; subst. left. reflexivity. }
+    rewrite (Hx Hin) in Hk'. cbn [app] in Hk'. rewrite app_nil_r in Hk'. exact Hk'.
+  Qed.
+End PoolProofs.
+
+Example ex_pool_process :
+  pool_process [PutFull true; PutFull true; PutOk] [Some 7; None] 9 = (Handed, [Some 7; None; Some 9]) /\
+  pool_process [PutFull true; PutFull false; PutOk] [Some 7] 9 = (Interrupted, [Some 7]).
+Proof. split; reflexivity. Qed.
+
+(* two workers, three queued lists, one in flight: after stop() and any complete schedule everything is done *)
+Example ex_pool_drain :
+  let p1 := run_workers (pool_stop (mkPool [Some 1; Some 2; Some 3] [WBusy 0; WIdle] [])) [1; 0; 1; 0; 0; 1; 1; 0; 1]%nat in
+  pw p1 = [WExited; WExited] /\ pdone p1 = [0; 1; 2; 3].
+Proof. vm_compute. split; reflexivity. Qed.
